@@ -83,3 +83,33 @@ def closure(func, expr, stop=()):
                     if m not in seen:
                         todo.append(m)
     return seen
+
+
+def inline_locals(func, expr, depth=4, keep=()):
+    """Substitute local names that have exactly one plain assignment in `func` by their defining expression
+    (a refactor that merely names a sub-expression must not change a rule's verdict)."""
+    import copy
+    defs = assignments(func)
+    params = {a.arg for a in func.args.args + func.args.kwonlyargs}
+
+    class T(ast.NodeTransformer):
+        def __init__(self):
+            self.changed = False
+
+        def visit_Name(self, node):
+            if isinstance(node.ctx, ast.Load) and node.id not in params and node.id not in keep:
+                d = defs.get(node.id, [])
+                if len(d) == 1 and d[0][2] is None and isinstance(d[0][1], (ast.Assign, ast.AnnAssign)):
+                    st = d[0][1]
+                    tg = st.targets[0] if isinstance(st, ast.Assign) else st.target
+                    if isinstance(tg, ast.Name):
+                        self.changed = True
+                        return copy.deepcopy(d[0][0])
+            return node
+    e = copy.deepcopy(expr)
+    for _ in range(depth):
+        t = T()
+        e = t.visit(e)
+        if not t.changed:
+            break
+    return ast.fix_missing_locations(e)
